@@ -1,5 +1,6 @@
 import Cinco.Drv.Wire
 import Cinco.Drv.FieldWire
+import Cinco.Drv.CfgWire
 import Cinco.TreeIO.Include
 import Cinco.Format.Xml
 import Cinco.Format.Yaml
@@ -261,6 +262,7 @@ def handle (cmd : String) (j : Json) : R Json := do
       pure (resToJson (Field.toPython E f (← valOfJson (← field j "value"))))
   | "regex.match" => do
       pure (Json.bool (Regex.isMatch (← reOfJson (← field j "re")) (← fChars j "text")))
+  | "cfg.run" => cfgRun j
   | "hash" => do
       match Hash.byName (← fStr j "alg") with
       | some h => pure (Json.mkObj [("digest", bytesJson (h (← fBytes j "data")))])
